@@ -4,7 +4,7 @@
 From Coq Require Import Permutation.
 From Verif Require Import Base.Lex Region.Model Region.Ord Region.ProofsContains Region.ProofsGroup Region.ProofsInsert
   Region.ProofsMerge Region.ProofsGap Region.ProofsPhase1 Region.ProofsPhase2
-  Region.Converge Region.ProofsConvA Region.ProofsConvB Region.ProofsConvC Region.PdCodec Region.ProofsBucket Region.Peers Region.ProofsBudget Region.ProofsLatest Region.ProofsApi Region.ProofsGc Region.InvCheck.
+  Region.Converge Region.ProofsConvA Region.ProofsConvB Region.ProofsConvC Region.PdCodec Region.ProofsBucket Region.Peers Region.ProofsBudget Region.ProofsLatest Region.ProofsApi Region.ProofsGc Region.InvCheck Region.ProofsClosed Region.ProofsReach.
 Open Scope N_scope.
 
 (* ---- containment ---- *)
@@ -264,9 +264,10 @@ Print Assumptions C09_converges_inv_insert.
 
 (* the hypotheses of the convergence theorems as executable tests (extracted; the replay evaluates [cinvb] on the
    implementation's cache after every operation and [truth_wfb] on the ground truth at every quiescent point) *)
-Theorem C09_inv_check_sound : forall truth c,
-  (truth_wfb truth = true -> truth_wf truth) /\ (cinvb truth c = true -> cinv truth c).
-Proof. intros truth c. exact (conj (truth_wfb_sound truth) (cinvb_sound truth c)). Qed.
+Theorem C09_inv_check_sound : forall truth c hist,
+  (truth_wfb truth = true -> truth_wf truth) /\ (cinvb truth c = true -> cinv truth c) /\
+  (hist_okb truth hist = true -> hist_ok truth (fun d => In d hist)).
+Proof. intros truth c hist. exact (conj (truth_wfb_sound truth) (conj (cinvb_sound truth c) (hist_okb_sound truth hist))). Qed.
 Print Assumptions C09_inv_check_sound.
 Theorem C09_converges_checked : forall truth cur_of pd budget fuel k c,
   truth_wfb truth = true -> cinvb truth c = true ->
@@ -276,6 +277,27 @@ Theorem C09_converges_checked : forall truth cur_of pd budget fuel k c,
   rounds truth cur_of pd budget fuel 4 c k = true.
 Proof. exact converges_checked. Qed.
 Print Assumptions C09_converges_checked.
+
+(* the invariant is reachable: from the empty cache, through ANY sequence of lookups (all APIs), reactions to store replies,
+   sender-side entry changes, GC, expiry, store checks and bucket updates, while PD and the stores answer with arbitrary OLDER
+   states of the regions ([H]: the history; [hist_ok]: TiKV's epoch discipline over it), the cache satisfies [cinv]; hence,
+   once PD reports the current regions, 4 rounds suffice from any reachable state *)
+Theorem C09_invariant_reachable : forall truth H c,
+  hist_ok truth H -> reach truth H c -> cinv truth c.
+Proof. intros truth H c H2 H3. exact (proj1 (reach_rinv truth H H2 c H3)). Qed.
+Print Assumptions C09_invariant_reachable.
+Theorem C09_converges_reachable : forall truth H cur_of pd budget fuel k T c,
+  truth_wf truth -> hist_ok truth H -> reach truth H c ->
+  (forall R, In R truth -> In R (cur_of R) /\ forall d, In d (cur_of R) -> In d truth) ->
+  (forall t k T, In T truth -> tcontains T k = true -> pd t (ReqGet k) = PdOne (Some T)) ->
+  (0 < budget)%nat -> (0 < fuel)%nat ->
+  In T truth -> tcontains T k = true ->
+  rounds truth cur_of pd budget fuel 4 c k = true.
+Proof.
+  intros truth H cur_of pd budget fuel k T c H1 Hh Hr H2 H3 H4 H5 H6 H7.
+  exact (converges truth H1 cur_of H2 pd H3 budget fuel H4 H5 k T H6 H7 c (proj1 (reach_rinv truth H Hh c Hr))).
+Qed.
+Print Assumptions C09_converges_reachable.
 
 (* ---- the situations without convergence (leader store down, leaderless region, PD stale or silent) ---- *)
 (* whatever PD answers — nothing, gaps, leaderless regions, stale descriptions — a lookup consults PD at most [budget]
@@ -518,3 +540,20 @@ Example C09_inv_check_nonvacuous :
   cinvb cv_truth (mkCache [cv_stale] [] [(1, (1, 1))] [] []) = false /\
   truth_wfb [cv_R1] = false /\ truth_wfb [cv_R2] = false.
 Proof. vm_compute. repeat split. Qed.
+
+(* reachability: PD still answers every key lookup with the old, unsplit region 1 (a state of the history); the cold cache
+   takes it; the resulting state is reachable, satisfies the invariant, and needs all 4 rounds once PD is current *)
+Definition cv_old := mkDesc 1 [] [] 1 1 [(1, 1); (2, 2)] (1, 1) None.
+Definition cv_hist := [cv_old; cv_R1; cv_R2].
+Example C09_reachable_nonvacuous :
+  hist_okb cv_truth cv_hist = true /\ hist_okb cv_truth [mkDesc 1 [] [] 3 1 [(1, 1); (2, 2)] (1, 1) None] = false /\
+  exists c, reach cv_truth (fun d => In d cv_hist) c /\ c = cv_cache /\ cinvb cv_truth c = true /\
+    rounds cv_truth (fun _ => cv_truth) cv_pd 3 3 3 c [99] = false /\ rounds cv_truth (fun _ => cv_truth) cv_pd 3 3 4 c [99] = true.
+Proof.
+  split; [vm_compute; reflexivity|]. split; [vm_compute; reflexivity|]. eexists. split.
+  - eapply (R_locate cv_truth (fun d => In d cv_hist) (fun _ _ => PdOne (Some cv_old)) 3 3 0 empty_cache [99] false).
+    + intros t q. left. reflexivity.
+    + apply R_empty.
+    + vm_compute. reflexivity.
+  - vm_compute. repeat split.
+Qed.
